@@ -69,6 +69,7 @@ type state struct {
 	mu      sync.Mutex
 	active  bool
 	closing bool
+	gen     int64    // execution number (see Gen)
 	setup   bool     // Setup phase: Points pass through, driver goroutines are held back
 	held    []func() // driver goroutines to start when the setup phase ends
 	pending []*Event
@@ -89,7 +90,16 @@ var s state
 var timerTrace = os.Getenv("VERIF_TIMER_TRACE")
 
 // T0 is the wall-clock value of virtual time zero.
-var T0 = time.Date(2026, 1, 1, 0, 0, 0, 0, time.UTC)
+var T0 = time.Date(2100, 1, 1, 0, 0, 0, 0, time.UTC) // in the future of any wall clock (see unibk: one clock for client and store)
+
+// Gen returns the number of the current execution. Seams remember the generation of the
+// world they belong to: a goroutine left over from an earlier execution (e.g. one that was
+// blocked inside the store on a real timer) must not register events in a later one.
+func Gen() int64 {
+	s.mu.Lock()
+	defer s.mu.Unlock()
+	return s.gen
+}
 
 // Active reports whether a controlled execution is in progress.
 func Active() bool {
@@ -104,6 +114,7 @@ func Reset() {
 	defer s.mu.Unlock()
 	s.active = true
 	s.closing = false
+	s.gen++
 	s.pending = nil
 	s.parked = nil
 	s.dead = map[int]bool{}
